@@ -79,7 +79,7 @@ impl File {
         self.inner.synced_size.load(Ordering::SeqCst)
     }
     pub(crate) fn dirty_bytes(&self) -> u64 {
-        self.size() - self.synced_size()
+        self.size().saturating_sub(self.synced_size())
     }
 
     pub(crate) async fn write_append_writable_data<R: Send + 'static>(
@@ -92,17 +92,32 @@ impl File {
             Self::inplace_sync_call(move || {
                 let offset = file_inner.size.fetch_add(len, Ordering::SeqCst);
                 let (res, data) = c.create(offset);
-                Self::write_data(&file_inner.std_file, offset, res)?;
+                if let Err(e) = Self::write_data(&file_inner.std_file, offset, res) {
+                    Self::resync_size_after_failed_append(&file_inner);
+                    return Err(e);
+                }
                 Ok(data)
             })
         } else {
             Self::background_sync_call(move || {
                 let offset = file_inner.size.fetch_add(len, Ordering::SeqCst);
                 let (res, data) = c.create(offset);
-                Self::write_data(&file_inner.std_file, offset, res)?;
+                if let Err(e) = Self::write_data(&file_inner.std_file, offset, res) {
+                    Self::resync_size_after_failed_append(&file_inner);
+                    return Err(e);
+                }
                 Ok(data)
             })
             .await
+        }
+    }
+
+    /// The size was advanced by the whole length before the write. After a failure it must again be the length of
+    /// the file: a file opened by `IoDriver::open` is in append mode, the kernel puts the next record at the physical
+    /// end whatever offset is passed, and the offset is what the record header and the index remember.
+    fn resync_size_after_failed_append(file_inner: &FileInner) {
+        if let Ok(metadata) = file_inner.std_file.metadata() {
+            file_inner.size.store(metadata.len(), Ordering::SeqCst);
         }
     }
 
